@@ -8,6 +8,7 @@ import (
 	"unsafe"
 
 	mdag "github.com/ipfs/boxo/ipld/merkledag"
+	unixfs "github.com/ipfs/boxo/ipld/unixfs"
 	ipld "github.com/ipfs/go-ipld-format"
 )
 
@@ -27,12 +28,14 @@ func VerifC10ReaderState(r DagReader) (root string, state string, off int64) {
 
 // VerifC10ReaderWedge inspects the reader's walker: it returns the shallowest
 // level on the active path whose child index lies beyond the node's current
-// number of links (-1 if none), the walker depth, and the bytes left in the
-// loaded leaf buffer (-1 if none). The Walker documents childIndex <=
+// number of links (-1 if none), the walker depth, the bytes left in the loaded
+// leaf buffer (-1 if none) and the number of file bytes in not-yet-visited
+// leaves strictly below the wedged level (what Iterate can still deliver
+// before it climbs back to that level). The Walker documents childIndex <=
 // ChildTotal as its invariant; with childIndex > ChildTotal, NextChild()
 // neither advances nor reports ErrNextNoChild, and Walker.Iterate alternates
 // down()=ErrDownNoChild / NextChild()=nil forever. Read-only.
-func VerifC10ReaderWedge(r DagReader) (level, depth, bufLeft int) {
+func VerifC10ReaderWedge(r DagReader) (level, depth, bufLeft int, below uint64) {
 	level, bufLeft = -1, -1
 	dr, ok := r.(*dagReader)
 	if !ok {
@@ -53,7 +56,24 @@ func VerifC10ReaderWedge(r DagReader) (level, depth, bufLeft int) {
 			total = mdag.VerifC10LinkCount(pn)
 		}
 		if int(ci.Index(l).Uint()) > total {
-			return l, depth, bufLeft
+			level = l
+			break
+		}
+	}
+	if level < 0 {
+		return
+	}
+	for l := level + 1; l <= depth && l < len(nodes) && l < ci.Len(); l++ {
+		pn, ok := ipld.ExtractIPLDNode(nodes[l]).(*mdag.ProtoNode)
+		if !ok || mdag.VerifC10LinkCount(pn) == 0 {
+			continue
+		}
+		fsn, err := unixfs.FSNodeFromBytes(pn.Data())
+		if err != nil {
+			continue
+		}
+		for j := int(ci.Index(l).Uint()) + 1; j < fsn.NumChildren(); j++ {
+			below += fsn.BlockSize(j)
 		}
 	}
 	return
